@@ -229,6 +229,7 @@ def main():
     mism = []      # (profile, hist, file, line, what)
     monfail = []   # (profile, hist, file, line, names)
     distinct = set()
+    halts = []
     known_all = [k for k in load_known() if k.get('property') == cid]
     profiles = list(P.get('profiles', []))
     for sc in P.get('scenarios', []) + [k['scenario'] for k in known_all if k.get('scenario')]:
@@ -253,6 +254,8 @@ def main():
                 cov['op_histogram'][k] = cov['op_histogram'].get(k, 0) + v
             for k, v in js.get('outcomes', {}).items():
                 cov['outcome_histogram'][k] = cov['outcome_histogram'].get(k, 0) + v
+                if P.get('halt_is_violation') and k.split(':')[-1] in ('halted', 'hung', 'hang'):
+                    halts.append((name, sf[:-4] + '.sx', k, js.get('halted', '')))
         for hi, hf, ln, res in load_results(d):
             pc['steps'] += 1
             tag = res[0] if res else 'empty'
@@ -283,7 +286,10 @@ def main():
                 distinct.add(hashlib.sha1((fam + '|' + mcls + '|' + detail + '|' + str(hi) + ':' + str(ln)).encode()).hexdigest())
             rel = [t for t in diff if props.in_projection(cid, t)]
             if ook != 1:
-                rel.append('outcome-class')
+                if fam == 'select':
+                    rel += [t for t in ('select', 'outcome-class') if props.in_projection(cid, t)]
+                elif props.in_projection(cid, 'outcome-class') or props.in_projection(cid, '*') or rel:
+                    rel.append('outcome-class')
             if rel:
                 cov['mismatches_in_projection'] += 1
                 mism.append((name, hi, hf, ln, ','.join(rel) + ' model:' + mcls + ' ' + detail))
@@ -311,6 +317,16 @@ def main():
     # ---- verdict
     nviol = 0
     out_lines = []
+    if halts:
+        name, hf, what, why = halts[0]
+        rp = os.path.join(V, 'replays', f'{cid}-{seed}-halt.json')
+        keep = os.path.join(V, 'replays', f'{cid}-{seed}-halt.sx')
+        if os.path.exists(hf):
+            shutil.copyfile(hf, keep)
+        json.dump({'property': cid, 'kind': 'the implementation halted or hung', 'profile': name, 'what': what, 'detail': why[:2000],
+                   'history_file': keep, 'replay': f'{BUILD}/saoh gen --profile {name} (same seed) reproduces the halt'}, open(rp, 'w'), indent=1)
+        out_lines.append(f'VIOLATION property={cid} replay={rp}')
+        nviol += len(halts)
     if unlisted_mon:
         name, hi, hf, ln, names = unlisted_mon[0]
         rp = os.path.join(V, 'replays', f'{cid}-{seed}-monitor.json')
@@ -322,7 +338,7 @@ def main():
         out_lines.append(f'VIOLATION property={cid} replay={rp}')
         nviol += len(unlisted_mon)
     broken = [o for o in obligations if not o[1]]
-    if broken and not unlisted_mon:
+    if broken and not unlisted_mon and not halts:
         rp = os.path.join(V, 'replays', f'{cid}-{seed}-broken.json')
         info = {'property': cid, 'kind': 'proof obligation or correspondence no longer checks',
                 'broken': [{'obligation': o[0], 'detail': o[2]} for o in broken]}
